@@ -470,9 +470,18 @@ impl<S: USet> Eng<S> {
         if i == j || self.slots[j].is_none() {
             return;
         }
+        // half of the time into an existing set through `Clone::clone_from` (which a type may override)
+        let dst = if self.rng.chance(1, 2) { self.slots[i].take() } else { None };
         self.slots[i] = None;
         let before = self.repr_full(j);
-        let s = alloc::under_test(|| self.slots[j].as_ref().unwrap().clone());
+        let s = match dst {
+            Some(mut d) => {
+                self.bump("op:clone_from");
+                alloc::under_test(|| d.clone_from(self.slots[j].as_ref().unwrap()));
+                d
+            }
+            None => alloc::under_test(|| self.slots[j].as_ref().unwrap().clone()),
+        };
         if self.repr_full(j) != before {
             self.fail("C07,C18", "clone changed the original".into());
         }
